@@ -62,6 +62,9 @@ package sio
 //@ define hin(x T, h []T) bool = hfrom(x, h, 0)
 //@ define hkeep(s []T, h []T, j int) int = j <= 0 ? 0 : hkeep(s, h, j - 1) + (hin(s[j-1], h) ? 0 : 1)
 
+// representation: the two lists never share a backing array
+//@ define hsValid(e *handlerStore[T]) bool = e != nil && (arr(e.funcs) != arr(e.funcsOnce) || arr(e.funcsOnce) == 0)
+
 //@ func (*handlerStore).off$1
 //@   requires arr(handler) != arr(slice)
 //@   modifies elems(slice)
@@ -80,7 +83,7 @@ package sio
 
 //@ func (*handlerStore).off
 //@   requires arr(handler) != arr(e.funcs) && arr(handler) != arr(e.funcsOnce)
-//@   requires arr(e.funcs) != arr(e.funcsOnce) || len(e.funcsOnce) == 0
+//@   requires hsValid(e)
 //@   modifies e.funcs, e.funcsOnce, elems(e.funcs), elems(e.funcsOnce)
 //@   ensures len(handler) == 0 ==> len(e.funcs) == 0 && len(e.funcsOnce) == 0 [C18.hs.off.all]
 //@   ensures len(handler) > 0 ==> len(e.funcsOnce) == old(hkeep(e.funcsOnce, handler, len(e.funcsOnce))) [C18.hs.off.once.len]
@@ -155,119 +158,119 @@ package sio
 // Manager.OffOpen(f) must name the handler that On/Once registered: a pointer that can identify a registered handler
 // (a pointer into the argument array never can).
 //@ func (*Manager).OffOpen
-//@   requires m.openHandlers != nil
+//@   requires hsValid(m.openHandlers)
 //@   callsite off
 //@     requires forall k int :: 0 <= k && k < len(arg0) ==> arg0[k] > 0 [C18.api.off.identity.Manager.OffOpen]
 
 // Manager.OffPing(f) must name the handler that On/Once registered: a pointer that can identify a registered handler
 // (a pointer into the argument array never can).
 //@ func (*Manager).OffPing
-//@   requires m.pingHandlers != nil
+//@   requires hsValid(m.pingHandlers)
 //@   callsite off
 //@     requires forall k int :: 0 <= k && k < len(arg0) ==> arg0[k] > 0 [C18.api.off.identity.Manager.OffPing]
 
 // Manager.OffError(f) must name the handler that On/Once registered: a pointer that can identify a registered handler
 // (a pointer into the argument array never can).
 //@ func (*Manager).OffError
-//@   requires m.errorHandlers != nil
+//@   requires hsValid(m.errorHandlers)
 //@   callsite off
 //@     requires forall k int :: 0 <= k && k < len(arg0) ==> arg0[k] > 0 [C18.api.off.identity.Manager.OffError]
 
 // Manager.OffClose(f) must name the handler that On/Once registered: a pointer that can identify a registered handler
 // (a pointer into the argument array never can).
 //@ func (*Manager).OffClose
-//@   requires m.closeHandlers != nil
+//@   requires hsValid(m.closeHandlers)
 //@   callsite off
 //@     requires forall k int :: 0 <= k && k < len(arg0) ==> arg0[k] > 0 [C18.api.off.identity.Manager.OffClose]
 
 // Manager.OffReconnect(f) must name the handler that On/Once registered: a pointer that can identify a registered handler
 // (a pointer into the argument array never can).
 //@ func (*Manager).OffReconnect
-//@   requires m.reconnectHandlers != nil
+//@   requires hsValid(m.reconnectHandlers)
 //@   callsite off
 //@     requires forall k int :: 0 <= k && k < len(arg0) ==> arg0[k] > 0 [C18.api.off.identity.Manager.OffReconnect]
 
 // Manager.OffReconnectAttempt(f) must name the handler that On/Once registered: a pointer that can identify a registered handler
 // (a pointer into the argument array never can).
 //@ func (*Manager).OffReconnectAttempt
-//@   requires m.reconnectAttemptHandlers != nil
+//@   requires hsValid(m.reconnectAttemptHandlers)
 //@   callsite off
 //@     requires forall k int :: 0 <= k && k < len(arg0) ==> arg0[k] > 0 [C18.api.off.identity.Manager.OffReconnectAttempt]
 
 // Manager.OffReconnectError(f) must name the handler that On/Once registered: a pointer that can identify a registered handler
 // (a pointer into the argument array never can).
 //@ func (*Manager).OffReconnectError
-//@   requires m.reconnectErrorHandlers != nil
+//@   requires hsValid(m.reconnectErrorHandlers)
 //@   callsite off
 //@     requires forall k int :: 0 <= k && k < len(arg0) ==> arg0[k] > 0 [C18.api.off.identity.Manager.OffReconnectError]
 
 // Manager.OffReconnectFailed(f) must name the handler that On/Once registered: a pointer that can identify a registered handler
 // (a pointer into the argument array never can).
 //@ func (*Manager).OffReconnectFailed
-//@   requires m.reconnectFailedHandlers != nil
+//@   requires hsValid(m.reconnectFailedHandlers)
 //@   callsite off
 //@     requires forall k int :: 0 <= k && k < len(arg0) ==> arg0[k] > 0 [C18.api.off.identity.Manager.OffReconnectFailed]
 
 // clientSocket.OffConnect(f) must name the handler that On/Once registered: a pointer that can identify a registered handler
 // (a pointer into the argument array never can).
 //@ func (*clientSocket).OffConnect
-//@   requires s.connectHandlers != nil
+//@   requires hsValid(s.connectHandlers)
 //@   callsite off
 //@     requires forall k int :: 0 <= k && k < len(arg0) ==> arg0[k] > 0 [C18.api.off.identity.clientSocket.OffConnect]
 
 // clientSocket.OffConnectError(f) must name the handler that On/Once registered: a pointer that can identify a registered handler
 // (a pointer into the argument array never can).
 //@ func (*clientSocket).OffConnectError
-//@   requires s.connectErrorHandlers != nil
+//@   requires hsValid(s.connectErrorHandlers)
 //@   callsite off
 //@     requires forall k int :: 0 <= k && k < len(arg0) ==> arg0[k] > 0 [C18.api.off.identity.clientSocket.OffConnectError]
 
 // clientSocket.OffDisconnect(f) must name the handler that On/Once registered: a pointer that can identify a registered handler
 // (a pointer into the argument array never can).
 //@ func (*clientSocket).OffDisconnect
-//@   requires s.disconnectHandlers != nil
+//@   requires hsValid(s.disconnectHandlers)
 //@   callsite off
 //@     requires forall k int :: 0 <= k && k < len(arg0) ==> arg0[k] > 0 [C18.api.off.identity.clientSocket.OffDisconnect]
 
 // Namespace.OffConnection(f) must name the handler that On/Once registered: a pointer that can identify a registered handler
 // (a pointer into the argument array never can).
 //@ func (*Namespace).OffConnection
-//@   requires n.connectionHandlers != nil
+//@   requires hsValid(n.connectionHandlers)
 //@   callsite off
 //@     requires forall k int :: 0 <= k && k < len(arg0) ==> arg0[k] > 0 [C18.api.off.identity.Namespace.OffConnection]
 
 // Server.OffNewNamespace(f) must name the handler that On/Once registered: a pointer that can identify a registered handler
 // (a pointer into the argument array never can).
 //@ func (*Server).OffNewNamespace
-//@   requires s.newNamespaceHandlers != nil
+//@   requires hsValid(s.newNamespaceHandlers)
 //@   callsite off
 //@     requires forall k int :: 0 <= k && k < len(arg0) ==> arg0[k] > 0 [C18.api.off.identity.Server.OffNewNamespace]
 
 // Server.OffAnyConnection(f) must name the handler that On/Once registered: a pointer that can identify a registered handler
 // (a pointer into the argument array never can).
 //@ func (*Server).OffAnyConnection
-//@   requires s.anyConnectionHandlers != nil
+//@   requires hsValid(s.anyConnectionHandlers)
 //@   callsite off
 //@     requires forall k int :: 0 <= k && k < len(arg0) ==> arg0[k] > 0 [C18.api.off.identity.Server.OffAnyConnection]
 
 // serverSocket.OffError(f) must name the handler that On/Once registered: a pointer that can identify a registered handler
 // (a pointer into the argument array never can).
 //@ func (*serverSocket).OffError
-//@   requires s.errorHandlers != nil
+//@   requires hsValid(s.errorHandlers)
 //@   callsite off
 //@     requires forall k int :: 0 <= k && k < len(arg0) ==> arg0[k] > 0 [C18.api.off.identity.serverSocket.OffError]
 
 // serverSocket.OffDisconnecting(f) must name the handler that On/Once registered: a pointer that can identify a registered handler
 // (a pointer into the argument array never can).
 //@ func (*serverSocket).OffDisconnecting
-//@   requires s.disconnectingHandlers != nil
+//@   requires hsValid(s.disconnectingHandlers)
 //@   callsite off
 //@     requires forall k int :: 0 <= k && k < len(arg0) ==> arg0[k] > 0 [C18.api.off.identity.serverSocket.OffDisconnecting]
 
 // serverSocket.OffDisconnect(f) must name the handler that On/Once registered: a pointer that can identify a registered handler
 // (a pointer into the argument array never can).
 //@ func (*serverSocket).OffDisconnect
-//@   requires s.disconnectHandlers != nil
+//@   requires hsValid(s.disconnectHandlers)
 //@   callsite off
 //@     requires forall k int :: 0 <= k && k < len(arg0) ==> arg0[k] > 0 [C18.api.off.identity.serverSocket.OffDisconnect]
 
@@ -363,6 +366,7 @@ package sio
 //@   callsite (*ackHandler).call
 //@     requires !(*header.ID in s.acks) [C03.cli.onack.delete]
 //@     requires recv == old(s.acks[*header.ID]) [C03.cli.onack.handler]
+//@     requires !held(s.acksMu) [C03.cli.onack.unlocked]
 //@     update called = called + 1
 //@   callsite decode skip   // assumption: decoding the reply's arguments does not touch the socket's ack table
 //@   ensures called <= 1 [C03.cli.onack.once]
@@ -374,6 +378,7 @@ package sio
 //@   callsite (*ackHandler).call
 //@     requires !(*header.ID in s.acks) [C03.srv.onack.delete]
 //@     requires recv == old(s.acks[*header.ID]) [C03.srv.onack.handler]
+//@     requires !held(s.acksMu) [C03.srv.onack.unlocked]
 //@     update called = called + 1
 //@   callsite decode skip   // assumption: decoding the reply's arguments does not touch the socket's ack table
 //@   ensures called <= 1 [C03.srv.onack.once]
